@@ -70,12 +70,13 @@ var selection = concat(
 	sels("collection/set.go", "set_", pSet, "findIndex", "AddValue", "RemoveValue", "ContainsValue", "GetIndex", "GetSize", "GetValue", "IsEmpty", "AsArray",
 		"AddValues", "RemoveValues", "RemoveAll"),
 	// (d) the remaining rebuild loops of list.go
-	sels("collection/list.go", "list_", pSeq1, "GetValues", "SetValue", "SetValues", "AppendValue", "AppendValues", "InsertValues", "RemoveValues"),
+	sels("collection/list.go", "list_", pSeq1, "GetValues", "SetValue", "SetValues", "AppendValue", "AppendValues", "InsertValues", "RemoveValues",
+		"GetIndex", "ContainsValue", "ContainsAny", "ContainsAll"),
 )
 
 // methods of types that are not translated: calls go to the oracle [ext] of the semantics; their names are
 // always emitted so that coq/GenRep.v can name them
-var externals = [][2]string{{"collator_", "RankValues"}, {"collator_", "CompareValues"}}
+var externals = [][2]string{{"collator_", "RankValues"}, {"collator_", "CompareValues"}, {"collatorClass_", "Make"}}
 
 func concat(ls ...[]sel) []sel {
 	var r []sel
